@@ -172,6 +172,9 @@ func (e *Enc) execAlloc(in *ssa.Alloc) {
 	l := e.refLoc(r, elem)
 	e.locs[in] = l
 	e.store(e.cur, l, e.zeroOf(elem))
+	if l.Kind == lCell && isPrivateAlloc(in) {
+		e.privCells = append(e.privCells, privCell{heap: l.Heap, sort: fmt.Sprintf("(Array Int %s)", e.sortOf(elem)), ref: r})
+	}
 }
 
 func (e *Enc) execFieldAddr(in *ssa.FieldAddr) {
